@@ -8,7 +8,7 @@ static struct { uint8_t mode, lss_conf, emcy0, stopped; uint8_t p8; } M;
 static const uint8_t CS[] = { 1, 2, 128, 129, 130, 0, 3, 127, 255 };
 #define NT 5           /* NMT targets: own id, 0 (all), another id, 80h | own id, 80h - a node id is the whole byte, not its low seven bits */
 enum { E_NMT0 = 0, E_SETMODE0 = 9 * NT, E_START = 9 * NT + 3, E_RESET_NODE, E_RESET_COM, E_STOPNODE, E_P_SDO, E_P_RPDO, E_P_SYNC, E_P_HBMON, E_P_HBFOREIGN,
-       E_P_LSS_CONF, E_P_LSS_WAIT, E_P_LSS_INQ, E_P_FOREIGN, E_P_OWN_SDO, E_P_OWN_HB, E_P_OWN_PDO, E_P_EXT_NMT, E_P_EXT_SDO, E_P_EXT_RPDO, E_EMCY_SET, E_EMCY_CLR, E_TRIG, E_TICK, E_TRIG2, E_N };
+       E_P_LSS_CONF, E_P_LSS_WAIT, E_P_LSS_INQ, E_P_FOREIGN, E_P_OWN_SDO, E_P_OWN_HB, E_P_OWN_PDO, E_P_EXT_NMT, E_P_EXT_SDO, E_P_EXT_RPDO, E_P_LSS_SIBLING, E_P_LSS_OWN, E_EMCY_SET, E_EMCY_CLR, E_TRIG, E_TICK, E_TRIG2, E_N };
 static uint8_t NID;
 
 static int TT;   /* cfg 4: timer-driven TPDO instead of the heartbeat services */
@@ -43,7 +43,7 @@ static const char *ev_name(int e)
     static char b[64];
     static const char *const N[] = { "CONodeStart", "CONmtReset(node)", "CONmtReset(com)", "CONodeStop", "probe:SDO upload 1000h", "probe:RPDO frame", "probe:SYNC", "probe:heartbeat of monitored node",
         "probe:heartbeat of unmonitored node", "probe:LSS switch global(configuration)", "probe:LSS switch global(waiting)", "probe:LSS inquire node-id", "probe:foreign identifier 123h",
-        "probe:own SDO response id", "probe:own heartbeat id", "probe:own TPDO id", "probe:NMT start on identifier 20000000h", "probe:SDO request on 20000600h+id", "probe:RPDO frame on 20000200h+id", "COEmcySet(0)", "COEmcyClr(0)", "COTPdoTrigPdo(0)", "tick", "COTPdoTrigPdo(2) (timer-driven TPDO)" };
+        "probe:own SDO response id", "probe:own heartbeat id", "probe:own TPDO id", "probe:NMT start on identifier 20000000h", "probe:SDO request on 20000600h+id", "probe:RPDO frame on 20000200h+id", "probe:LSS selective sequence, serial of a sibling device", "probe:LSS selective sequence, own identity", "COEmcySet(0)", "COEmcyClr(0)", "COTPdoTrigPdo(0)", "tick", "COTPdoTrigPdo(2) (timer-driven TPDO)" };
     if (e < E_SETMODE0) { int t = e % NT; snprintf(b, sizeof b, "NMT cs=%d target=%s", CS[e / NT], t == 0 ? "own" : t == 1 ? "0(all)" : t == 2 ? "other" : t == 3 ? "80h|own" : "80h"); }
     else if (e < E_START) snprintf(b, sizeof b, "CONmtSetMode(%s)", e == E_SETMODE0 ? "PREOP" : e == E_SETMODE0 + 1 ? "OPERATIONAL" : "STOP");
     else snprintf(b, sizeof b, "%s", N[e - E_START]);
@@ -124,6 +124,17 @@ static int step(int e)
     case E_P_EXT_NMT: unclaimed(); d[0] = 1; d[1] = NID; w_rx(&Node, 0x20000000u, 2, d); break;
     case E_P_EXT_SDO: unclaimed(); w_rx8(&Node, 0x20000600u + NID, 0x40, 0x00, 0x10, 0x00, 0, 0, 0, 0); break;
     case E_P_EXT_RPDO: unclaimed(); d[0] = 0x5A; w_rx(&Node, 0x20000200u + NID, 1, d); break;
+    /* the four frames of switch-state-selective (identity 1018h = 1,2,3,4): every one of them is an LSS request, consumed by the LSS slave
+     * whether it matches or not - none may reach the application, whatever the NMT state */
+    case E_P_LSS_SIBLING: case E_P_LSS_OWN: {
+        static const uint32_t IDV[4] = { 1, 2, 3, 4 };
+        for (int k = 0; k < 4; k++) {
+            uint32_t v = IDV[k] + (k == 3 && e == E_P_LSS_SIBLING ? 1u : 0u);
+            memset(d, 0, 8); d[0] = (uint8_t)(0x40 + k); d[1] = (uint8_t)v; d[2] = (uint8_t)(v >> 8); d[3] = (uint8_t)(v >> 16); d[4] = (uint8_t)(v >> 24);
+            w_rx(&Node, 0x7E5, 8, d);
+        }
+        if (e == E_P_LSS_OWN) { if (!M.lss_conf) X.n_lss = 1; M.lss_conf = 1; }
+        break; }
     case E_EMCY_SET: if (!M.emcy0) { M.emcy0 = 1; if (M.mode == M_PREOP || M.mode == M_OP) X.n_emcy = 1; } COEmcySet(&Node.Emcy, 0, 0); break;
     case E_EMCY_CLR: if (M.emcy0)  { M.emcy0 = 0; if (M.mode == M_PREOP || M.mode == M_OP) X.n_emcy = 1; } COEmcyClr(&Node.Emcy, 0); break;
     case E_TRIG: if (M.mode == M_OP) X.n_tpdo0 = 1; COTPdoTrigPdo(Node.TPdo, 0); break;
@@ -167,7 +178,8 @@ static int step(int e)
         if (nc_count_tx(0x280u + NID) != X.n_tpdo1) { mc_fail("gating-sync", "%d synchronous TPDO frame(s) in mode %d, expected %d", nc_count_tx(0x280u + NID), M.mode, X.n_tpdo1); return MC_OK; }
         if (nc_count_tx(0x80u + NID) != X.n_emcy) { mc_fail("gating-emcy", "%d EMCY frame(s) in mode %d, expected %d", nc_count_tx(0x80u + NID), M.mode, X.n_emcy); return MC_OK; }
         if (nc_count_tx(0x7E4) != X.n_lss) { mc_fail("gating-lss", "%d LSS response(s), expected %d", nc_count_tx(0x7E4), X.n_lss); return MC_OK; }
-        if (X.n_lss) { const WFrame *f = nc_find_tx(0x7E4, 0); if (f->d[0] != 0x5E || f->d[1] != NID) { mc_fail("gating-lss", "LSS inquire node-id answered %02X %02X", f->d[0], f->d[1]); return MC_OK; } }
+        if (X.n_lss && (e == E_P_LSS_OWN)) { const WFrame *f = nc_find_tx(0x7E4, 0); if (f->d[0] != 0x44) { mc_fail("gating-lss", "LSS selective switch answered %02X", f->d[0]); return MC_OK; } }
+        else if (X.n_lss) { const WFrame *f = nc_find_tx(0x7E4, 0); if (f->d[0] != 0x5E || f->d[1] != NID) { mc_fail("gating-lss", "LSS inquire node-id answered %02X %02X", f->d[0], f->d[1]); return MC_OK; } }
     }
     {   int n = nc_count_cb(CB_IF_RECEIVE);
         if (n < X.ifrecv_min || n > X.ifrecv_max) { mc_fail("unclaimed-frame-delivery", "frame handed to the application %d time(s) in mode %d, expected %d..%d", n, M.mode, X.ifrecv_min, X.ifrecv_max); return MC_OK; }
